@@ -2,6 +2,7 @@ import Batteries.Tactic.Alias
 import GenlmModel.Proofs.AgendaM
 import GenlmModel.Proofs.Zn
 import GenlmModel.Proofs.Norm
+import GenlmModel.Proofs.LimKleene
 /-! # C08 — total weights are the least solution of the grammar equations -/
 namespace Genlm.Props.C08
 /-- the driver's table is the Kleene iterate `ZN` -/
@@ -21,4 +22,18 @@ alias agenda_invariant := Genlm.agenda_invariant
 alias agenda_fixed_point := Genlm.agenda_fixed_point_of_empty
 alias agenda_least := Genlm.agenda_least
 alias agenda_below_kleene_chain := Genlm.agenda_le_ZN
+
+/-! ## at the limit (ℝ≥0∞): `ZL G X = ⨆ n, ZN G n X` -/
+/-- the total weights solve the grammar's polynomial equations … -/
+alias total_weights_fixed_point := Genlm.ZL_fixed_point
+/-- … and lie below every pre-fixed point: THE least solution (no convergence hypothesis; divergent parts are `∞`) -/
+alias total_weights_least := Genlm.ZL_least
+alias total_weights_unique_least := Genlm.ZL_unique
+/-- the start symbol's value equals the sum of the string weights over the whole language -/
+alias total_is_sum_over_language := Genlm.ZL_eq_tsum_WL'
+/-- string weights: the least solution of the string-indexed equations -/
+alias string_weights_fixed_point := Genlm.WL_fixed_point
+alias string_weights_least := Genlm.WL_least
+/-- a terminated chaotic agenda iteration (any scheduler) returns exactly the least solution -/
+alias agenda_result_is_least_solution := Genlm.agenda_result_is_ZL
 end Genlm.Props.C08
